@@ -18,7 +18,7 @@ def builds_needed(tier):
 
 
 def bounds(tier):
-    return {"scrypt_log2N": "1..=10" if tier == "thorough" else "1..=6 (+ spot 10)", "scrypt_r": "1..=8", "scrypt_p": "1..=4",
+    return {"scrypt_log2N": "1..=10" if tier == "thorough" else "1..=6 (+ spot 10)", "scrypt_r": "1..=8 (thorough also 9..=16 at small N)", "scrypt_p": "1..=4 (thorough also 5..=8 at small N)",
             "pbkdf2_c_max": 4096 if tier == "thorough" else 1000, "hkdf_digests": 13 if tier == "thorough" else 5, "hkdf_L_max": "255*HashLen (and +1, 256*HashLen refused)"}
 
 
@@ -38,6 +38,8 @@ def shards(tier):
     maxn = 10 if tier == "thorough" else 6
     for ln in range(1, maxn + 1):
         sh.append(("shard_scrypt", ln))
+    if tier == "thorough":
+        sh.append(("shard_scrypt_wide", None))
     sh.append(("shard_scrypt_dklen", None))
     sh.append(("shard_scrypt_params", None))
     return sh
@@ -143,6 +145,25 @@ def shard_scrypt_params(_, tier):
         (["scrypt_params 1 %d 1" % (2 ** 30 - 1)], [ok], None), (["scrypt_params 1 %d 1" % (2 ** 30)], [bad], None),
         (["scrypt_params 1 %d %d" % (2 ** 32 - 1, 2 ** 32 - 1)], [bad], None),
     ]
+    ck.run(cases)
+    ck.stats.states = len(cases)
+    return ck.stats
+
+
+def shard_scrypt_wide(_, tier):
+    """r and p beyond the main grid (r up to 16, p up to 8) at small N"""
+    ck = core.Checker(PROPERTY_ID)
+    cases = []
+    pw, salt = pat(5, 0, 9), pat(6, 0, 13)
+    for ln in (1, 2, 4):
+        for r in range(9, 17):
+            for p in (1, 3):
+                cases.append((["scrypt %s %s %d %d %d 64" % (H(pw), H(salt), ln, r, p)], [obs_of(macs.scrypt(pw, salt, ln, r, p, 64))], None))
+        for r in (1, 3, 8):
+            for p in (5, 6, 7, 8):
+                cases.append((["scrypt %s %s %d %d %d 33" % (H(pw), H(salt), ln, r, p)], [obs_of(macs.scrypt(pw, salt, ln, r, p, 33))], None))
+    for ln in (11, 12):
+        cases.append((["scrypt %s %s %d 2 1 32" % (H(pw), H(salt), ln)], [obs_of(macs.scrypt(pw, salt, ln, 2, 1, 32))], None))
     ck.run(cases)
     ck.stats.states = len(cases)
     return ck.stats
